@@ -412,6 +412,65 @@ func TestVerifC14(t *testing.T) {
 		}
 		r.Eval("mixed:" + c.cls)
 	})
+	// ------------------------------------------------------------ points built by NewFromXY belong to the caller too
+	// (the routines build their table operands with it): each is driven through every mutator in place; afterwards the
+	// package must still multiply correctly and a fresh NewFromXY point must still be the affine point it was given
+	for h := 0; h < hk.N(40, 400); h++ {
+		lr := hk.NewRNG(hk.Seed(), fmt.Sprintf("c14xy/%d", h))
+		A, B := ref.BaseMulFast(randScalarI(lr)), ref.BaseMulFast(randScalarI(lr))
+		qa, qb := fromRef(A, bi(1)), fromRef(B, new(big.Int).SetBytes(lr.Bytes(9)))
+		xr, yr := *qa.x.GetRaw(), *qa.y.GetRaw()
+		n := NewFromXY(&xr, &yr)
+		if g, _ := toRef(n); !g.Eq(A) {
+			r.Violation("newfromxy-is-not-the-given-point", hk.D{"point": ptHex(A), "got": ptHex(g)})
+			break
+		}
+		shadow := A
+		var hist []string
+		for step := 0; step < 4; step++ {
+			switch lr.Intn(5) {
+			case 0:
+				n.Double(n)
+				shadow = shadow.Dbl()
+				hist = append(hist, "n.Double(n)")
+			case 1:
+				n.Add(n, qb)
+				shadow = shadow.Add(B)
+				hist = append(hist, "n.Add(n,Q)")
+			case 2:
+				n.Negate(n)
+				shadow = shadow.Neg()
+				hist = append(hist, "n.Negate(n)")
+			case 3:
+				n.Set(qb)
+				shadow = B
+				hist = append(hist, "n.Set(Q)")
+			default:
+				n.Select(qb, n, 1)
+				shadow = B
+				hist = append(hist, "n.Select(Q,n,1)")
+			}
+		}
+		if g, _ := toRef(n); !g.Eq(shadow) {
+			r.Violation("newfromxy-point-wrong-after-in-place-updates", hk.D{"history": hist, "got": ptHex(g), "want": ptHex(shadow)})
+			break
+		}
+		k := lr.Bytes(32)
+		kb, _ := ScalarBaseMult(k)
+		gb, sb := lr.Bytes(32), lr.Bytes(32)
+		mm, _ := ScalarMixedMult_Unsafe(gb, fromRef(B, bi(1)), sb)
+		xr2, yr2 := *qa.x.GetRaw(), *qa.y.GetRaw()
+		fresh := NewFromXY(&xr2, &yr2)
+		g1, _ := toRef(kb)
+		g2, _ := toRef(mm)
+		g3, _ := toRef(fresh)
+		if kb == nil || mm == nil || !g1.Eq(ref.BaseMulFast(ref.ModN(new(big.Int).SetBytes(k)))) ||
+			!g2.Eq(ref.BaseMulFast(ref.ModN(new(big.Int).SetBytes(gb))).Add(B.Mul(new(big.Int).SetBytes(sb)))) || !g3.Eq(A) {
+			r.Violation("package-wrong-after-a-newfromxy-point-was-updated-in-place", hk.D{"history": hist, "base_mult_ok": kb != nil && g1.Eq(ref.BaseMulFast(ref.ModN(new(big.Int).SetBytes(k)))), "fresh_newfromxy": ptHex(g3), "expected": ptHex(A)})
+			break
+		}
+		r.Eval("newfromxy-points-belong-to-the-caller")
+	}
 	// ------------------------------------------------------------ long-lived point objects
 	// [k]P must be right for the CURRENT value of a point object that has been multiplied before and
 	// then updated in place by any mutator (Set, SetBytes, Negate, Add, Double, Select, MultiSelectXYZ)
@@ -438,6 +497,21 @@ func TestVerifC14(t *testing.T) {
 			if g, _ := toRef(got); !g.Eq(want) {
 				r.Violation("object-history:scalarmult-wrong-after-in-place-update", hk.D{"history": hist, "P": ptHex(shadow), "k": hk.Hex(k), "got": ptHex(g), "want": ptHex(want)})
 				break
+			}
+			// ... and as the variable point of the double-scalar multiplication
+			{
+				gb, sb := lr.Bytes(32), lr.Bytes(32)
+				got2, err2 := ScalarMixedMult_Unsafe(gb, P, sb)
+				hist = append(hist, fmt.Sprintf("ScalarMixedMult_Unsafe(%x,P,%x)", gb[:4], sb[:4]))
+				want2 := ref.BaseMulFast(ref.ModN(new(big.Int).SetBytes(gb))).Add(shadow.Mul(new(big.Int).SetBytes(sb)))
+				if err2 != nil {
+					r.Violation("object-history:mixedmult-error", hk.D{"history": hist, "err": err2.Error()})
+					break
+				}
+				if g2, _ := toRef(got2); !g2.Eq(want2) {
+					r.Violation("object-history:mixedmult-wrong-after-in-place-update", hk.D{"history": hist, "P": ptHex(shadow), "g": hk.Hex(gb), "s": hk.Hex(sb), "got": ptHex(g2), "want": ptHex(want2)})
+					break
+				}
 			}
 			switch m := lr.Intn(8); m {
 			case 0:
